@@ -320,7 +320,7 @@ func (sc SimpleColumn) WriteTo(store ReadOnlyFactStore, w io.Writer) error {
 					return fmt.Errorf("malformed fact: %v predicate arity %d: %w", f, p.Arity, ErrWrongArgument)
 				}
 				// line h + k: <column: argument x_j for fact k>
-				if _, err := fmt.Fprint(w, f.Args[i].String()); err != nil {
+				if _, err := fmt.Fprint(w, escapeLine(f.Args[i].String())); err != nil {
 					return err
 				}
 				if _, err := fmt.Fprintln(w); err != nil {
@@ -472,6 +472,17 @@ func (sc SimpleColumn) ReadInto(r io.Reader, store FactStore) error {
 func percentEscape(s string) string {
 	// Note that url.QueryEscape() insists on replacing " " by "+" instead of "%20".
 	return strings.Replace(url.QueryEscape(s), "+", "%20", -1)
+}
+
+// escapeLine prepares the printed form of a constant for writing: readPred
+// passes every line that starts with '/' (a name constant) through
+// percentUnescape, which rewrites "%XX" and "+". Escaping exactly these two
+// characters makes the reader return the name that was written.
+func escapeLine(s string) string {
+	if len(s) == 0 || s[0] != '/' || !strings.ContainsAny(s, "%+") {
+		return s
+	}
+	return strings.NewReplacer("%", "%25", "+", "%2B").Replace(s)
 }
 
 // percentUnescape unescapes a string encoded with percentEscape
